@@ -110,8 +110,23 @@ def normalised_keys(srcs, cfg, tol):
         svg = SVG.fromstring(s.svg_text)
         vb = svg.view_box()
         A = Affine2D(*oracle_svg.viewbox_to_font(tuple(vb), oc))
-        out.append([normalize(SVGPath(d=sh.as_path().d).apply_transform(A), tol / 10).d for sh in svg.shapes()])
+        row = []
+        for sh in svg.shapes():
+            fp = SVGPath(d=sh.as_path().d).apply_transform(A)
+            row.append((normalize(fp, tol / 10).d, fp.d))
+        out.append(row)
     return out
+
+
+KF_AFFINE = "affine_between-fails-within-tolerance"
+
+
+def affine_recoverable(paths, tol):
+    """Does picosvg recover an affine between the first copy and every later one at this tolerance?"""
+    from picosvg.svg_reuse import affine_between
+    from picosvg.svg_types import SVGPath
+
+    return all(affine_between(SVGPath(d=paths[0]), SVGPath(d=p), tol) is not None for p in paths[1:])
 
 
 def check_one(chk, glyphs, pattern, fmt, tol, ctx, replay):
@@ -151,10 +166,15 @@ def check_one(chk, glyphs, pattern, fmt, tol, ctx, replay):
         elif representable and len(outs) != 1:
             # is it picosvg's grid-snapping normalisation that separates the copies?  (known finding, see DESIGN §7)
             keys = normalised_keys(srcs, cfg, tol)
-            class_keys = {keys[gi][li] for gi, g in enumerate(pattern) for li, cc in enumerate(g) if cc == c}
+            mine = [keys[gi][li] for gi, g in enumerate(pattern) for li, cc in enumerate(g) if cc == c]
+            class_keys = {k for k, _ in mine}
+            fk = None
+            if len(class_keys) > 1:
+                fk = KF_BUCKET
+            elif not affine_recoverable([p for _, p in mine], tol):
+                fk = KF_AFFINE
             chk.violation(f"{ctx} [{fmt}]: {copies[c]} congruent copies of class {c} are stored {len(outs)} times: {sorted(outs)}"
-                          f" ({len(class_keys)} distinct normalised keys)", replay,
-                          finding_key=KF_BUCKET if len(class_keys) > 1 else None)
+                          f" ({len(class_keys)} distinct normalised keys)", replay, finding_key=fk)
     return any(v > 1 for v in copies.values())
 
 
